@@ -333,7 +333,7 @@ fn rand_big(rng: &mut Rng, bits: u32) -> BigInt {
 }
 
 pub fn run(cfg: &Cfg, rep: &mut Report) {
-    rep.rule = "(1) every triple of the boundary lattice cubed, all three roundings, plain+checked (exhaustive over shards); (2) seeded random triples: bit lengths of x,y uniform in 0..=127, denominator uniform / at the fits-or-not boundary / dividing x exactly; Wad pairs and pow (base,exponent) likewise; I256 operands whose product fits 256 bits. Distinct case = (function, rounding, sign pattern of x,y,d, product fits i128?, quotient fits?, inexact?); cases refused only because d == 0 with nothing else varying collapse into one case per sign pattern.".into();
+    rep.rule = "(1) every triple of the boundary lattice cubed, all three roundings, plain+checked (exhaustive over shards); (2) seeded random triples: bit lengths of x,y uniform in 0..=127, denominator uniform / at the fits-or-not boundary / dividing x exactly; Wad pairs and pow (base,exponent) likewise; I256 operands whose product fits 256 bits. Distinct case = (function, rounding, sign pattern of x,y,d, product fits i128?, quotient fits?, inexact?); cases refused only because d == 0 with nothing else varying collapse into one case per sign pattern. Wad::pow also at the edge of the range: whole-number bases at the last exponent that fits and its neighbours, and for every exponent 1..=140 (and some larger) the largest base that still fits (bisection on the reference) with its neighbours, both signs.".into();
     let mut c = mk();
     let lat = lattice(cfg.thorough());
     let n = lat.len();
@@ -387,6 +387,57 @@ pub fn run(cfg: &Cfg, rep: &mut Report) {
                 continue;
             }
             check_pow(&c, rep, b, x);
+        }
+    }
+    // pow at the edge of the representable range: for whole-number bases the last exponent that fits and
+    // its neighbours; for every exponent up to 140 (and a few beyond) the largest base that still fits,
+    // found by bisection on the reference, and its neighbours; both signs
+    {
+        let mut cases: Vec<(i128, u32)> = vec![];
+        for kint in [2i128, 3, 4, 5, 7, 10, 16, 100, 1000, 65536, 1_000_000_007] {
+            let b = WAD_SCALE * kint;
+            let mut n = 1u32;
+            while n < 200 && ref_pow(b, n + 1).is_some() {
+                n += 1;
+            }
+            for d in [-1i64, 0, 1, 2] {
+                let nn = (n as i64 + d).max(0) as u32;
+                for bb in [b, -b, b + 1, b - 1, b + b / 500, -(b + b / 500)] {
+                    cases.push((bb, nn));
+                }
+            }
+        }
+        let mut exps2: Vec<u32> = (1..=140).collect();
+        exps2.extend([200u32, 255, 256, 257, 511, 1000, 4096, 65535, 1 << 20]);
+        for n in exps2 {
+            let (mut lo, mut hi) = (WAD_SCALE, i128::MAX);
+            // invariant: ref_pow(lo, n) fits; ref_pow(hi, n) does not (for n >= 2)
+            if ref_pow(hi, n).is_some() {
+                lo = hi;
+            }
+            while hi - lo > 1 {
+                let mid = lo + (hi - lo) / 2;
+                if ref_pow(mid, n).is_some() {
+                    lo = mid;
+                } else {
+                    hi = mid;
+                }
+            }
+            for d in -2i128..=2 {
+                if let Some(b) = lo.checked_add(d) {
+                    cases.push((b, n));
+                    cases.push((-b, n));
+                }
+            }
+        }
+        let mut k = 0u64;
+        for (b, n) in cases {
+            k += 1;
+            if k % cfg.nshards as u64 != cfg.shard as u64 {
+                continue;
+            }
+            check_pow(&c, rep, b, n);
+            rep.count("pow_at_the_edge_of_the_range");
         }
     }
     rep.end_history();
